@@ -89,6 +89,11 @@ class Sim:
                 self.event("VIOLATION", clause, witness, detail)
             raise v
 
+    def guard(self, clause, witness=""):
+        """Context manager: an exception escaping from the code under test inside
+        the block is an oracle failure `clause` (witness + exception type)."""
+        return _Guard(self, clause, witness)
+
     def fail(self, clause, witness="", detail=""):
         self.check(clause, False, witness, detail)
 
@@ -96,6 +101,24 @@ class Sim:
         if self.nontrivial is not None:
             return bool(self.nontrivial)
         return bool(self.faults) or bool(self.probes)
+
+
+class _Guard:
+    def __init__(self, sim, clause, witness):
+        self.sim, self.clause, self.witness = sim, clause, witness
+
+    def __enter__(self):
+        return self
+
+    def __exit__(self, et, ev, tb):
+        if et is None or issubclass(et, Violation) or not issubclass(et, Exception) or issubclass(et, StepLimit):
+            return False
+        import traceback
+
+        where = traceback.extract_tb(tb)[-1]
+        self.sim.check(self.clause, False, "%s%s" % (self.witness + ":" if self.witness else "", et.__name__),
+                       "%s: %s (at %s:%s %s)" % (et.__name__, str(ev)[:200], where.filename.split("/")[-1], where.lineno, where.name))
+        return False
 
 
 def _fmt(f):
